@@ -291,17 +291,23 @@ before = termios.tcgetattr(sys.stdin)
 seen = {}
 import invoke.runners as R
 orig = R.Runner.read_our_stdin
+boom = {"on": False}
 def spy(self, input_):
     seen.setdefault("during", termios.tcgetattr(input_))
+    if boom["on"]:
+        raise RuntimeError("injected: stdin worker dies inside character_buffered")
     return orig(self, input_)
 R.Runner.read_our_stdin = spy
 out = io.StringIO()
-for cmd, kw in (("true", {}), ("exit 3", {"warn": False}), ("sleep 5", {"timeout": 0.3})):
+for cmd, kw in (("true", {}), ("exit 3", {"warn": False}), ("sleep 5", {"timeout": 0.3}), ("sleep 0.3", {"die": True})):
+    boom["on"] = bool(kw.pop("die", False))
     try:
         Context().run(cmd, hide=True, out_stream=out, **kw)
     except Exception as e:
         res.setdefault("raised", []).append(type(e).__name__)
     res.setdefault("after", []).append(termios.tcgetattr(sys.stdin) == before)
+    if termios.tcgetattr(sys.stdin) != before:
+        termios.tcsetattr(sys.stdin, termios.TCSANOW, before)
 d = seen.get("during")
 res["cbreak_during"] = bool(d) and not (d[3] & termios.ICANON) and not (d[3] & termios.ECHO)
 res["icanon_before"] = bool(before[3] & termios.ICANON)
@@ -355,9 +361,10 @@ def termios_check(tier):
             fails.append({"case": res, "what": "terminal attributes of the input stream not restored after run()"})
         if not res.get("cbreak_during"):
             fails.append({"case": res, "what": "input terminal was not switched to character-buffered mode"})
-    return {"name": "termios-restore", "evaluations": 3 if res else 0, "failures": fails,
+    return {"name": "termios-restore", "evaluations": 4 if res else 0, "failures": fails,
             "note": "helper interpreter under pty.fork (controlling terminal = sys.stdin): exit 0, exit 3 "
-                    "(UnexpectedExit), timeout kill; termios before == after each run, cbreak observed during: %s"
+                    "(UnexpectedExit), timeout kill, stdin worker dying inside the character-buffered block "
+                    "(ThreadException); termios before == after each run, cbreak observed during: %s"
                     % json.dumps(res)}
 
 
